@@ -52,6 +52,7 @@ type World struct {
 	St                 *vlib.Stats
 	MaxSweeps          int
 	namePrefix         string // player / table names of a sibling tournament differ
+	NoLend             bool   // hand plain fresh slices to the regulator
 }
 
 func (w *World) fail(prop, sig, format string, args ...interface{}) {
@@ -255,6 +256,26 @@ func (w *World) guard(name string, f func()) {
 	f()
 }
 
+// lend hands a list of names to the regulator the way a caller with a reused
+// buffer does: the list is a window of a longer array, and once the call has
+// returned the caller overwrites the whole array. A regulator that has copied
+// what it needs never notices.
+func (w *World) lend(ps []string) (arg []string, reuse func()) {
+	if w.NoLend {
+		return ps, func() {}
+	}
+	buf := make([]string, len(ps)+3)
+	copy(buf, ps)
+	for i := len(ps); i < len(buf); i++ {
+		buf[i] = fmt.Sprintf("stale-%d", i)
+	}
+	return buf[:len(ps)], func() {
+		for i := range buf {
+			buf[i] = fmt.Sprintf("reused-buffer-%d", i)
+		}
+	}
+}
+
 func (w *World) Add(n int) {
 	ps := []string{}
 	for i := 0; i < n; i++ {
@@ -273,7 +294,9 @@ func (w *World) Add(n int) {
 	w.initialAlloc = len(w.Tables) == 0 && len(w.Dead) == 0
 	w.tablesOpenedInCall = 0
 	var err error
-	w.guard("AddPlayers", func() { err = w.R.AddPlayers(ps) })
+	arg, reuse := w.lend(ps)
+	w.guard("AddPlayers", func() { err = w.R.AddPlayers(arg) })
+	reuse()
 	w.initialAlloc = false
 	if w.tablesOpenedInCall >= 2 {
 		w.Facts["two-tables-opened"] = true
@@ -314,7 +337,9 @@ func (w *World) ReEnter(n int) {
 	}
 	w.initialAlloc = len(w.Tables) == 0 && len(w.Dead) == 0
 	var err error
-	w.guard("AddPlayers", func() { err = w.R.AddPlayers(ps) })
+	arg, reuse := w.lend(ps)
+	w.guard("AddPlayers", func() { err = w.R.AddPlayers(arg) })
+	reuse()
 	w.initialAlloc = false
 	w.Facts["re-entry"] = true
 	if closed {
@@ -446,7 +471,9 @@ func (w *World) Sync(id string, out, rot int) bool {
 		}
 		w.Log = append(w.Log, fmt.Sprintf("release(%s,%d)", id, len(released)))
 		var rerr error
-		w.guard("ReleasePlayers", func() { rerr = w.R.ReleasePlayers(id, released) })
+		arg, reuse := w.lend(released)
+		w.guard("ReleasePlayers", func() { rerr = w.R.ReleasePlayers(id, arg) })
+		reuse()
 		if rerr != nil {
 			w.fail("C09", "release-refused", "ReleasePlayers(%s,%d) failed: %v", id, len(released), rerr)
 		}
